@@ -20,7 +20,9 @@
 (* closed and reopened.                                                                  *)
 (*                                                                                       *)
 (* One action per entry point: Add = ObjectTree.AddContent, Deliver =                    *)
-(* ObjectTree.AddRawChanges, Reopen = BuildObjectTree on the same storage.               *)
+(* ObjectTree.AddRawChanges, DeliverRejected = AddRawChanges whose batch attaches and is  *)
+(* then refused by the validator (rolled back), Reopen = BuildObjectTree on the same      *)
+(* storage.                                                                               *)
 EXTENDS ObjTree
 
 CONSTANTS Replicas,     \* all trees
@@ -144,12 +146,47 @@ Deliver(dst, src, B, withPath) ==
        /\ rep' = [rep EXCEPT ![dst] = st2]
        /\ UNCHANGED ch
 
-(* ------------------------------ close + reopen ------------------------------ *)
-\* BuildObjectTree on the same storage: buildWithAdded with the persisted common snapshot
+(* ------------------------------ rejected batches ------------------------------ *)
+\* objecttree.go addChangesToTree when validateTree fails (e.g. a change citing an acl record the
+\* receiver does not know yet, or refused by the content validator): only the changes that got
+\* attached are validated, so the payload is refused iff the offending change `bad` attaches.
+\*  - in-memory path: the rollback closure detaches what was attached and restores heads and
+\*    lastIteratedHeadId: the tree is exactly what it was;
+\*  - rebuild path: the tree built with the new changes is dropped and rebuilt from storage.
+\* Nothing is written to storage.
+WouldAttach(st, B, theirHeads, theirPath) ==
+    LET fresh    == SeqSet(B) \ st.att
+        newSnaps == {c \in fresh : IsSnap(c)}
+        NotInTree(c) == c = Root \/ (Snap(c) # st.root /\ Snap(c) \notin newSnaps)
+    IN IF fresh = {} THEN [rebuild |-> FALSE, new |-> {}]
+       ELSE IF \E c \in fresh : NotInTree(c) THEN
+            LET snapshot == IF theirPath # <<>> THEN CommonTwoPaths(PathOf(st), theirPath)
+                            ELSE SnapshotForHeads(fresh, theirHeads, st.root, StoreSet(st))
+            IN [rebuild |-> TRUE,
+                new |-> BuildFrom(snapshot, st.store, fresh \ {Root}) \ StoreSet(st)]
+       ELSE [rebuild |-> FALSE, new |-> AttachClosure(st.att, fresh) \ st.att]
+
 ReopenOf(st) ==
     LET att1 == BuildFrom(st.root, st.store, {})
     IN [st EXCEPT !.att = att1, !.iter = CanonOrder(st.root, att1)]
 
+RejectedBy(st, B, theirHeads, theirPath, bad) == bad \in WouldAttach(st, B, theirHeads, theirPath).new
+RejectTo(st, B, theirHeads, theirPath) ==
+    IF WouldAttach(st, B, theirHeads, theirPath).rebuild THEN ReopenOf(st) ELSE st
+
+DeliverRejected(dst, src, B, withPath, bad) ==
+    LET st   == rep[dst]
+        snd  == rep[src]
+        path == IF withPath THEN PathOf(snd) ELSE <<>>
+    IN /\ dst # src
+       /\ withPath \/ AllowNoPath
+       /\ AllowStale \/ SeqSet(B) \cap StoreSet(st) = {}
+       /\ RejectedBy(st, B, TreeHeads(snd), path, bad)
+       /\ rep' = [rep EXCEPT ![dst] = RejectTo(st, B, TreeHeads(snd), path)]
+       /\ UNCHANGED ch
+
+(* ------------------------------ close + reopen ------------------------------ *)
+\* BuildObjectTree on the same storage: buildWithAdded with the persisted common snapshot (ReopenOf)
 Reopen(r) ==
     /\ rep' = [rep EXCEPT ![r] = ReopenOf(rep[r])]
     /\ UNCHANGED ch
@@ -157,7 +194,8 @@ Reopen(r) ==
 Next ==
     \/ \E w \in Writers, id \in Ids, s \in BOOLEAN, sz \in Sizes : Add(w, id, s, sz)
     \/ \E dst, src \in Replicas : \E B \in BatchesOf(rep[src].store, MaxBatch) :
-           \E p \in BOOLEAN : Deliver(dst, src, B, p)
+           \E p \in BOOLEAN : \/ Deliver(dst, src, B, p)
+                              \/ \E bad \in SeqSet(B) : DeliverRejected(dst, src, B, p, bad)
     \/ \E r \in Replicas : Reopen(r)
 
 Spec == Init /\ [][Next]_vars
